@@ -1,7 +1,26 @@
+//! One module per family; harness names are prefixed with the property id (c17_, c18_, c20_,
+//! c05_).  Each property is behind a cargo feature so that `run.py --property X` only pays the
+//! (per-harness) Kani code generation of that property.
 pub mod util;
-mod c17_bitwise;
-mod c17_boolean;
+
+#[cfg(feature = "c05")]
+mod c05_deadline;
+
+#[cfg(feature = "c17")]
 pub mod c17_arith;
-mod c17_uints;
-pub mod c18_stack;
+#[cfg(feature = "c17")]
+mod c17_bitwise;
+#[cfg(feature = "c17")]
+mod c17_boolean;
+#[cfg(feature = "c17")]
 mod c17_stackops;
+#[cfg(feature = "c17")]
+mod c17_uints;
+
+#[cfg(feature = "c18")]
+mod c18_bytecode;
+#[cfg(feature = "c18")]
+mod c18_stack;
+
+#[cfg(feature = "c20")]
+mod c20_ethaddress;
